@@ -18,7 +18,7 @@ for _c in (1, 2, 3):
         what='size accounting of out_range against maxlen: result <= maxlen, refused exactly when the canonical packet does not fit, exact canonical length, 1277 bytes per frame suffice'))
 GROUPS.append(dict(_O, cls='B', name='out_range_pad_c2', unwind=44, timeout=3600, defines=['-DVERIF_COUNT=2', '-DVERIF_PAD=1', '-DVERIF_MAXLEN_CAP=40', '-DVERIF_FRAME_CAP=8'], mem_gb=20,
     bounds='2 frames of <= 8 bytes, maxlen <= 40, padding requested', what='padded output has exactly maxlen bytes or is refused'))
-GROUPS.append(dict(name='cat_invariant', cls='P', tu='C07_cat.c', entry='h_cat', dfcc=False, canary='real', expect_canaries=2, unwind=49, timeout=1800, mem_gb=20,
+GROUPS.append(dict(name='cat_invariant', cls='P', tu='C07_cat.c', entry='h_cat', canary='real', expect_canaries=2, unwind=2, timeout=1800, mem_gb=20,
     functions=['opus_repacketizer_cat_impl', 'opus_packet_get_nb_frames', 'opus_packet_get_samples_per_frame'],
     trusted=['stub of opus_packet_parse_impl carrying exactly the clauses E2-E9 enforced on the real parser under C06 (writes through the interior pointers it is given)'],
     what='cat on an arbitrary invariant-satisfying repacketizer and arbitrary packet: accept/reject conditions, invariant, contents unchanged on rejection, array writes inside the 48-entry arrays'))
